@@ -30,6 +30,26 @@ func runC08(c *Ctx) {
 	ruleRoutableAPIDelegates(c, "R08.5", "ServeErrorFor")
 	ruleRoutableAPIDelegates(c, "R08.1", "ProducersFor", "DefaultProduces")
 	ruleRegistryEntriesByOwnKey(c, "R08.1", "(*rt/middleware/untyped.API).ProducersFor", "producers")
+	// what Respond negotiates is its own question (offers with the default last): the request it is handed carries only
+	// what the accessors stored on top of the request THEY were given — a validation stage's private copy (negotiated
+	// against the route's list in spec order) does not leak into the request passed on
+	ruleMemoContextRooted(c, "R08.2")
+	// an error responder ADDS its extra headers (Header().Add): it never installs a value list wholesale over what the
+	// response already carries — the negotiated Content-Type in particular
+	if wr := p.FnOpt("(*rt/middleware.errorResp).WriteResponse"); wr != nil {
+		for _, in := range instrs(wr) {
+			mu, ok := in.(*ssa.MapUpdate)
+			if !ok {
+				continue
+			}
+			if isHdr, _ := allOrigins(mu.Map, oCall(-1, "(net/http.ResponseWriter).Header")); isHdr {
+				c.obD("R08.2", mu, "responder-headers-added-not-installed", false, "the error responder's extra headers are added to the response headers, key by key and value by value", "the response's header map is assigned directly: a Content-Type among the responder's headers replaces the negotiated one while the body is still written by the negotiated producer")
+			}
+		}
+		for _, ci := range callsIn(wr, "(net/http.Header).Set") {
+			c.obD("R08.2", ci, "responder-headers-added-not-installed", false, "the error responder's extra headers are added to the response headers", "Header.Set replaces what the response already carries")
+		}
+	}
 	ruleOffersDefaultLast(c, "R08.2")
 	ruleAuthorizeErrorsVerbatim(c, "R08.5")
 	ruleNormalizeOfferCuts(c, "R08.1")
